@@ -25,6 +25,9 @@ type vfQ struct {
 	wclosed bool // writer closed: EOF after buf drains
 	rclosed bool // reader closed: Read fails at once
 	chunk   int  // max bytes per Read (0 = no limit)
+	// capacity > 0: a Write returns only once the unread backlog is back at or below capacity - the
+	// backpressure of a real transport (seed C03-g needs a writer that can be kept waiting)
+	capacity int
 
 	cut       int64 // deliver at most this many bytes in total, then cutErr (-1 = no cut)
 	cutErr    error
@@ -81,6 +84,9 @@ func (q *vfQ) Read(p []byte) (int, error) {
 			q.delivered += int64(n)
 			if q.onRead != nil {
 				q.onRead(q.delivered)
+			}
+			if q.capacity > 0 {
+				q.cond.Broadcast()
 			}
 			return n, nil
 		}
@@ -143,6 +149,9 @@ func (q *vfQ) Write(p []byte) (int, error) {
 		q.buf = append(q.buf, p[:n]...)
 	}
 	q.cond.Broadcast()
+	for q.capacity > 0 && len(q.buf) > q.capacity && !q.rclosed && !q.wclosed && !(q.cut >= 0 && q.delivered >= q.cut) {
+		q.cond.Wait()
+	}
 	return n, err
 }
 
